@@ -347,6 +347,12 @@ func body(f family, mu *sync.Mutex, tot *runStats, discards map[string]int) func
 			c.Prune()
 		}
 		if fl != nil {
+			if dbg := os.Getenv("VERIF_C18_DEBUG"); dbg != "" {
+				if fh, err := os.OpenFile(dbg, os.O_APPEND|os.O_CREATE|os.O_WRONLY, 0o644); err == nil {
+					fmt.Fprintf(fh, "%s %s :: %s\n", f.Name, fl.key, fl.what)
+					fh.Close()
+				}
+			}
 			c.Fail(fl.key, fl.what, cs.String())
 		}
 		c.Outcome(out)
@@ -455,7 +461,7 @@ func child(env hres.Env) *hres.Result {
 	seen := map[string]bool{}
 	var divergences int64
 	for fi, f := range fams {
-		if only := os.Getenv("VERIF_C18_FAMILY"); only != "" && only != f.Name {
+		if only := os.Getenv("VERIF_C18_FAMILY"); only != "" && !strings.Contains(","+only+",", ","+f.Name+",") {
 			continue
 		}
 		// quick: the families run one after the other against the one overall deadline; thorough: every family
